@@ -32,24 +32,26 @@ class SR:
         if isinstance(o, Fraction): return SR(z3.RealVal(str(o)))
         raise TypeError(type(o))
     def __add__(s,o):
-        if isinstance(o, np.ndarray): return NotImplemented
+        if isinstance(o, np.ndarray) or not isinstance(o, (SR, SC, int, float, complex, np.number, Fraction)): return NotImplemented
+        if isinstance(o, (SC, complex)): return SC.lift(s) + o
         return SR(s.t + SR.lift(o).t)
     __radd__ = __add__
     def __sub__(s,o):
-        if isinstance(o, np.ndarray): return NotImplemented
+        if isinstance(o, np.ndarray) or not isinstance(o, (SR, SC, int, float, complex, np.number, Fraction)): return NotImplemented
         return SR(s.t - SR.lift(o).t)
     def __rsub__(s,o):
-        if isinstance(o, np.ndarray): return NotImplemented
+        if isinstance(o, np.ndarray) or not isinstance(o, (SR, SC, int, float, complex, np.number, Fraction)): return NotImplemented
         return SR(SR.lift(o).t - s.t)
     def __mul__(s,o):
-        if isinstance(o, np.ndarray): return NotImplemented
+        if isinstance(o, np.ndarray) or not isinstance(o, (SR, SC, int, float, complex, np.number, Fraction)): return NotImplemented
+        if isinstance(o, (SC, complex)): return SC.lift(s) * o
         return SR(s.t * SR.lift(o).t)
     __rmul__ = __mul__
     def __truediv__(s,o):
-        if isinstance(o, np.ndarray): return NotImplemented
+        if isinstance(o, np.ndarray) or not isinstance(o, (SR, SC, int, float, complex, np.number, Fraction)): return NotImplemented
         return SR(s.t * ABS.app('inv', SR.lift(o).t))
     def __rtruediv__(s,o):
-        if isinstance(o, np.ndarray): return NotImplemented
+        if isinstance(o, np.ndarray) or not isinstance(o, (SR, SC, int, float, complex, np.number, Fraction)): return NotImplemented
         return SR(SR.lift(o).t * ABS.app('inv', s.t))
     def __neg__(s): return SR(-s.t)
     def __pos__(s): return s
@@ -60,11 +62,40 @@ class SR:
         for _ in range(int(n)-1): r = r*s
         return r
     def sqrt(s): return SR(ABS.app('sqrt', s.t))
+    def exp(s): return SR(ABS.app('exp', s.t))
+    def cos(s): return SR(ABS.app('cos', s.t))
+    def sin(s): return SR(ABS.app('sin', s.t))
     def conjugate(s): return s
     conj = conjugate
     @property
     def real(s): return s
     def __repr__(s): return 'SR(%s)' % str(s.t)[:60]
+
+class SC:
+    def __init__(s, re, im): s.re, s.im = SR.lift(re), SR.lift(im)
+    @staticmethod
+    def lift(o):
+        if isinstance(o, SC): return o
+        if isinstance(o, complex): return SC(o.real, o.imag)
+        return SC(SR.lift(o), 0)
+    def __add__(s,o):
+        if isinstance(o, np.ndarray) or not isinstance(o, (SR, SC, int, float, complex, np.number, Fraction)): return NotImplemented
+        o=SC.lift(o); return SC(s.re+o.re, s.im+o.im)
+    __radd__=__add__
+    def __sub__(s,o):
+        if isinstance(o, np.ndarray) or not isinstance(o, (SR, SC, int, float, complex, np.number, Fraction)): return NotImplemented
+        o=SC.lift(o); return SC(s.re-o.re, s.im-o.im)
+    def __rsub__(s,o): o=SC.lift(o); return SC(o.re-s.re, o.im-s.im)
+    def __mul__(s,o):
+        if isinstance(o, np.ndarray) or not isinstance(o, (SR, SC, int, float, complex, np.number, Fraction)): return NotImplemented
+        o=SC.lift(o); return SC(s.re*o.re - s.im*o.im, s.re*o.im + s.im*o.re)
+    __rmul__=__mul__
+    def __neg__(s): return SC(-s.re, -s.im)
+    def conjugate(s): return SC(s.re, -s.im)
+    @property
+    def real(s): return s.re
+    @property
+    def imag(s): return s.im
 
 class SA(np.ndarray):
     def astype(self, dtype, *a, **k):
